@@ -205,6 +205,10 @@ func itemCodecs() []*codec {
 		accept: func() []namedBytes {
 			return []namedBytes{{"depth-10", []byte("[[[[[[[[[[1]]]]]]]]]]")}}
 		},
+		// ToJSON documents MaxAllowedInteger (2^53-1) "allowed to be encoded" and
+		// refuses byte strings that are not UTF-8; FromJSON accepts any 256-bit
+		// integer: not a round-trip pair outside the encoder's domain.
+		encMayFail: func(err error) bool { return errors.Is(err, stackitem.ErrInvalidValue) },
 		reject: func() []namedBytes {
 			return []namedBytes{{"depth-11", []byte("[[[[[[[[[[[1]]]]]]]]]]]")}, {"duplicate-key", []byte(`{"a":1,"a":2}`)}, {"fraction", []byte("1.5")},
 				// integers are limited to 256 bits (stackitem.MaxBigIntegerSizeBits)
